@@ -535,7 +535,19 @@ class BaseEval:
             return out
         if isinstance(e, ast.IfExp):
             self.pts(e.test, env)
-            return self.pts(e.body, env) | self.pts(e.orelse, env)
+            # `x if is_atomic(x) else f(x)`: on the arm where x was tested to be an atom / a string / None it carries no object
+            test, neg = e.test, False
+            while isinstance(test, ast.UnaryOp) and isinstance(test.op, ast.Not):
+                test, neg = test.operand, not neg
+            atomic_arm = None
+            tsrc = norm(test)
+            for arm, when in ((e.body, True), (e.orelse, False)):
+                if isinstance(arm, ast.Name) and tsrc in (f'is_atomic({arm.id})', f'tree.is_atomic({arm.id})', f'isinstance({arm.id}, str)', f'{arm.id} is None') \
+                        and when != neg:
+                    atomic_arm = arm
+            b = set() if atomic_arm is e.body else self.pts(e.body, env)
+            o = set() if atomic_arm is e.orelse else self.pts(e.orelse, env)
+            return b | o
         if isinstance(e, ast.UnaryOp):
             self.pts(e.operand, env)
             return set()
